@@ -47,7 +47,7 @@ REQUIRED = ('streets_completed', 'draw_rounds_checked', 'burns_checked',
 
 CUSTOMS = ('kuhn', 'draw5', 'stud5', 'greek', 'courchevel', 'holdem8',
            'plo8', 'badugi1', 'razzdraw', 'random', 'studdraw', 'openstud',
-           'studboard', 'studboard', 'drawboard')
+           'studboard', 'studboard', 'drawboard', 'holeboard')
 DEALING = ('CardBurning', 'HoleDealing', 'BoardDealing',
            'StandingPatOrDiscarding')
 BETTING = ('Folding', 'CheckingOrCalling', 'BringInPosting',
